@@ -155,6 +155,9 @@ func loadProjectFromFile(inputFile string, opts *LoaderOptions) (*types.Project,
 		log.Fatal().Err(err).Msgf("Failed to parse %s", inputFile)
 	}
 	if project.DisableEnvExpansion {
+		// start over: unmarshalling into the same struct would keep the map keys
+		// (process names, vars, depends_on) of the expanded text next to the raw ones
+		project = &types.Project{}
 		err = yaml.Unmarshal(yamlFile, project)
 		if err != nil {
 			if opts.IsInternalLoader {
